@@ -130,6 +130,22 @@ Proof.
   rewrite !Z.mod_small by lia. lia.
 Qed.
 
+(* the reading "no row equals ANY of the constants" is false as soon as there are two constants,
+   even with monotone conversion: [20,30] is pruned for `a = 25 AND a = 7` and contains 25 *)
+Lemma prune_sound_forall_consts_refuted :
+  exists lt o st cs vs v k c,
+    should_prune lt st cs = Ok true /\ stats_describe o st vs /\ conv_monotone_on lt o st /\
+    In (Some v) vs /\ In (CVal k c) cs /\ conv lt v = c.
+Proof.
+  exists i32, OSigned, st_ex, [CVal (KInt i32) 25; CVal (KInt i32) 7], [Some 25], 25, (KInt i32), 25.
+  split; [vm_compute; reflexivity|]. split; [|split; [|split; [|split]]].
+  - intros v [H|[]]. injection H as <-. split; intros b Hb; cbn in Hb; injection Hb as <-; cbn; lia.
+  - apply (conv_monotone_signed 32 st_ex); [lia| |]; intros b Hb; cbn in Hb; injection Hb as <-; lia.
+  - left; reflexivity.
+  - left; reflexivity.
+  - vm_compute. reflexivity.
+Qed.
+
 (* ---- and when it does not: deprecated signed-order statistics of a UINT_32 column (DESIGN §5-29).
    Row group {1, 3000000000, 7}: as INT32 the values are 1, -1294967296, 7, so the deprecated
    min / max are -1294967296 / 7.  The statistics are correct for the format, the group is pruned
